@@ -3,7 +3,10 @@ package props
 import (
 	"bytes"
 	"fmt"
+	"io"
 	"strings"
+
+	"github.com/ulikunitz/xz/lzma"
 
 	"verif/core"
 	"verif/ref"
@@ -28,6 +31,8 @@ type C16Case struct {
 	// distance the dictionary allows
 	Scheme   int `json:",omitempty"`
 	Straddle int `json:",omitempty"`
+	// Src: kind of source the LZMA2 reader is given (sourceOf in envkinds.go; 0 *bytes.Reader)
+	Src int `json:",omitempty"`
 }
 
 func init() {
@@ -82,6 +87,8 @@ func c16BuildN(kinds []int, sameProps bool, first int, scheme ...int) (data []by
 		c16Props = c16Schemes[scheme[0]]
 	}
 	farFirst := len(scheme) > 0 && scheme[0] == 6
+	// scheme 7: the smallest chunks there are - one byte per uncompressed chunk, one literal per LZMA chunk
+	tiny := len(scheme) > 0 && scheme[0] == 7
 	// scheme 5: the first chunk is long (about 5200 bytes of 0xFF: more than the reader's 4 KiB
 	// dictionary, so its ring buffer has wrapped, and the last byte has all top bits set) - every
 	// later reset happens in a reader that is no longer in its initial state
@@ -110,6 +117,15 @@ func c16BuildN(kinds []int, sameProps bool, first int, scheme ...int) (data []by
 				rest -= l
 			}
 			plain, err = g.Add(ref.ChunkSpec{Kind: kind, Ops: ops, Props: c16Props[0], Force: true})
+		case tiny && (kind == ref.CRaw || kind == ref.CRawReset):
+			plain, err = g.Add(ref.ChunkSpec{Kind: kind, Raw: []byte{byte('r' + i)}})
+		case tiny:
+			pr := c16Props[pi%len(c16Props)]
+			if (kind == ref.CLZMAProps || kind == ref.CLZMAFull) && !sameProps {
+				pi++
+				pr = c16Props[pi%len(c16Props)]
+			}
+			plain, err = g.Add(ref.ChunkSpec{Kind: kind, Ops: []ref.Op{{Kind: ref.OpLit, Byte: byte('A' + i)}}, Props: pr, Force: true})
 		case kind == ref.CRaw || kind == ref.CRawReset:
 			plain, err = g.Add(ref.ChunkSpec{Kind: kind, Raw: []byte(fmt.Sprintf("raw%d\xff", i))})
 		default:
@@ -208,6 +224,17 @@ func c16Sequence(r *core.Run, p C16Case) {
 	}
 	out, err, proto, pan := lzma2Decode(data, 4096)
 	desc := fmt.Sprintf("chunk kinds [%s]+end (same properties in every chunk: %v, property scheme %d, straddling chunk %d); specification: legal=%v (legal prefix %d chunks)", kindsString(p.Kinds), p.SameProps, p.Scheme, p.Straddle, legal, legalPrefix)
+	if p.Src != 0 {
+		pan = core.Guard(func() {
+			var rd io.Reader
+			rd, err = lzma.Reader2Config{DictCap: 4096}.NewReader2(sourceOf(p.Src, data))
+			if err != nil {
+				return
+			}
+			out, err, proto = readAll(rd, 4096, 256<<20)
+		})
+		desc += "; source: " + sourceKindNames[p.Src]
+	}
 	cls := errClass(err)
 	site := "lzma2R seq "
 	if legal {
@@ -393,10 +420,33 @@ func runC16(r *core.Run) {
 		}
 	}
 	rec(nil)
+	// the sequences of up to four chunks again through other kinds of source (buffered with Peek /
+	// Discard, one byte per call, short reads, data together with io.EOF)
+	{
+		base := cases
+		for _, c := range base {
+			if len(c.Kinds) > 4 || len(c.Kinds) == 0 {
+				continue
+			}
+			for _, sk := range []int{1, 2, 3, 4, 5} {
+				q := c
+				q.Src = sk
+				cases = append(cases, q)
+			}
+			if c.Scheme == 0 && !c.SameProps {
+				for _, sk := range []int{0, 1, 2, 3, 5} {
+					q := c
+					q.Scheme, q.Src = 7, sk
+					cases = append(cases, q)
+				}
+			}
+		}
+	}
 	for c := 0; c < 256; c++ {
 		cases = append(cases, C16Case{Probe: true, Control: c}, C16Case{Probe: true, Control: c, Second: true})
 	}
 	r.Extra("sequences", len(cases)-512)
+	r.Note("sequences of up to four chunks are additionally decoded through five other kinds of source (bufio 16 / default, one byte per call, short reads, data together with io.EOF)")
 	r.Note("every sequence of two or more chunks is realised twice: with rotating properties and with the same properties in every chunk; sequences (up to depth-1) with at least two properties-carrying chunks additionally with only pb / only lp / only lc changing")
 	r.Extra("control_byte_probes", 512)
 	r.Extra("liblzma_second_opinion", liblzmaAvailable())
@@ -446,6 +496,17 @@ func runC16(r *core.Run) {
 			panic("C16 harness error: liblzma disagrees on the size-field extreme " + e.name + ": " + s)
 		}
 		out, err, proto, pan := lzma2Decode(e.lz2, 4096)
+		for sk := 1; sk < nSourceKinds && pan == nil && proto == "" && errClass(err) == "EOF" && bytes.Equal(out, e.plain); sk++ {
+			sk := sk
+			pan = core.Guard(func() {
+				var rd io.Reader
+				rd, err = lzma.Reader2Config{DictCap: 4096}.NewReader2(sourceOf(sk, e.lz2))
+				if err != nil {
+					return
+				}
+				out, err, proto = readAll(rd, 4096, 256<<20)
+			})
+		}
 		cs := core.MkCase("C16", "extreme", map[string]string{"name": e.name})
 		switch {
 		case pan != nil:
